@@ -467,3 +467,90 @@ func rulePanicUnderLock(r *Run) {
 }
 
 func types_Identical(a, b types.Type) bool { return types.Identical(a, b) }
+
+// ---------------------------------------------------------------------------------------------
+// R17.6 / R11.12 — a read-modify-write of a stored value under a mutex is one critical section
+
+func init() {
+	register(ruleDef{ID: "R17.6", Prop: "C17", Tier: "quick", Floor: 1,
+		Title: "the stored extents are updated atomically: where a value is read from the store, modified and written back under a mutex, the read lies in the same critical section as the write (two writers growing the extents at once must not lose one update)",
+		Fn:    ruleStoreRMWOneSection})
+	register(ruleDef{ID: "R11.12", Prop: "C11", Tier: "quick", Floor: 1,
+		Title: "store read-modify-write under a mutex is one critical section (shared with R17.6)",
+		Fn:    ruleStoreRMWOneSection})
+}
+
+func ruleStoreRMWOneSection(r *Run) {
+	w := r.W
+	n := 0
+	for _, f := range w.RepoFuncs {
+		if len(f.Blocks) == 0 || strings.HasSuffix(w.fposFile(f), "_test.go") || !strings.HasPrefix(relPkg(pkgPathOf(f)), "datatype/") {
+			continue
+		}
+		names := map[string]bool{}
+		for _, b := range f.Blocks {
+			for _, in := range b.Instrs {
+				if op, ok := asLockOp(in); ok && op.lock && op.write {
+					names[op.name] = true
+				}
+			}
+		}
+		if len(names) == 0 {
+			continue
+		}
+		keyOf := func(c ssa.CallInstruction) string {
+			args := c.Common().Args
+			if len(args) < 2 {
+				return ""
+			}
+			k := args[1]
+			if kc, ok := k.(*ssa.Call); ok {
+				if cal := kc.Call.StaticCallee(); cal != nil && len(kc.Call.Args) == 0 {
+					return cal.String()
+				}
+			}
+			return ""
+		}
+		k := 0
+		for _, put := range calls(f) {
+			if methodNameOf(put) != "Put" || !put.Common().IsInvoke() || len(put.Common().Args) != 3 {
+				continue
+			}
+			pk := keyOf(put)
+			if pk == "" {
+				continue
+			}
+			// a Get of the same key whose result the written value depends on
+			var get ssa.Instruction
+			for d := range dataDeps(put.Common().Args[2]) {
+				if gc, ok := d.(*ssa.Call); ok && methodNameOf(gc) == "Get" && gc.Call.IsInvoke() && keyOf(gc) == pk {
+					get = gc
+				}
+			}
+			if get == nil {
+				// the dependence may run through a decoded struct: accept a dominating Get of the same key
+				for _, c := range calls(f) {
+					if methodNameOf(c) == "Get" && c.Common().IsInvoke() && keyOf(c) == pk && c.Block().Dominates(put.Block()) {
+						get = c
+					}
+				}
+			}
+			if get == nil {
+				continue
+			}
+			for name := range names {
+				held, by := heldAt(f, put, name, true)
+				if !held || by == nil {
+					continue
+				}
+				n++
+				k++
+				h2, by2 := heldAt(f, get, name, true)
+				r.check(h2 && by2 == by, fmt.Sprintf("%s:store-rmw#%d:%s:under-one-%s", fname(f), k, pk[strings.LastIndex(pk, ".")+1:], name),
+					"the stored value is read and written back under one acquisition of "+name,
+					"a stored value is written back under "+name+" from a copy that was read from the store before the lock was taken: two concurrent updates both start from the old value and one is lost", w.pos(get.Pos()))
+			}
+		}
+	}
+	r.check(n >= 1, "datatype:locked-store-rmw", fmt.Sprintf("%d locked read-modify-writes of stored values", n), "none found: rule needs review", "-")
+}
